@@ -25,6 +25,7 @@ var (
 	finalPingWait = 20 * time.Second
 	lingerWait    = 10 * time.Second
 	holdWait      = 30 * time.Second
+	ackIdleWait   = 10 * time.Second // a SETTINGS ACK on an idle connection takes microseconds
 	maxCoqEvents  = 3000
 )
 
@@ -51,6 +52,7 @@ type result struct {
 	peerOver   bool
 	dur        time.Duration
 	readErr    string
+	ackIdle    int // SETTINGS frames still unacknowledged after ackIdleWait on the idle connection
 }
 
 type endViolation struct {
@@ -144,6 +146,13 @@ func runApp(ctx context.Context, cancel context.CancelFunc, c *req.Client, sp *R
 	fail := func(err error) { rt.errStr.Store(err.Error()) }
 	if sp.StartDelayUs > 0 {
 		time.Sleep(time.Duration(sp.StartDelayUs) * time.Microsecond)
+	}
+	if rt.gate != nil {
+		select {
+		case <-rt.gate:
+		case <-ctx.Done():
+		case <-time.After(holdWait):
+		}
 	}
 	r := c.R().SetContext(ctx)
 	if sp.BigHeader > 0 {
@@ -249,6 +258,9 @@ func runScenario(sc *Scenario) (res *result) {
 	rts := make([]*reqRuntime, len(sc.Reqs))
 	for i := range rts {
 		rts[i] = &reqRuntime{release: make(chan struct{})}
+		if sc.Reqs[i].Gated {
+			rts[i].gate = make(chan struct{})
+		}
 	}
 	p := newPeer(sc, peerEnd, rts)
 	var dials atomic.Int32
@@ -285,7 +297,9 @@ func runScenario(sc *Scenario) (res *result) {
 		cancelAll()
 		for _, rt := range rts {
 			rt.releaseRead()
+			rt.openGate()
 		}
+		p.paused.Store(false)
 		p.shutdown()
 		cliEnd.Close()
 		peerEnd.Close()
@@ -316,6 +330,23 @@ func runScenario(sc *Scenario) (res *result) {
 					break
 				}
 				time.Sleep(2 * time.Millisecond)
+			}
+			// every SETTINGS frame is acknowledged without further stimulus: wait for the
+			// outstanding ACKs on the (now idle) connection before anything else is sent
+			p.paused.Store(false)
+			ackDeadline := time.Now().Add(ackIdleWait)
+			for {
+				p.mu.Lock()
+				pend := len(p.book.pending)
+				p.mu.Unlock()
+				if pend == 0 || p.readerExited() {
+					break
+				}
+				if time.Now().After(ackDeadline) {
+					res.ackIdle = pend
+					break
+				}
+				time.Sleep(time.Millisecond)
 			}
 			p.mu.Lock()
 			p.finishing = true
@@ -383,6 +414,11 @@ func runScenario(sc *Scenario) (res *result) {
 		res.endClasses = append(res.endClasses, endViolation{clsStreamStalled, fmt.Sprintf(
 			"stream %d (request %d): peer sent %d bytes, the app consumed all of them, the stream receive window at the peer is %d and no WINDOW_UPDATE arrived before the PING ack",
 			s.Sid, s.Req, s.Sent, s.RecvWin), s.At})
+	}
+	if res.ackIdle > 0 {
+		res.endClasses = append(res.endClasses, endViolation{clsSettingsNotAcked, fmt.Sprintf(
+			"%d SETTINGS frame(s) not acknowledged within %v on an idle connection (all requests finished, nothing sent to the client in between): the ACK is missing or held back until the client's next write",
+			res.ackIdle, ackIdleWait), len(res.log)})
 	}
 	if connStall {
 		res.endClasses = append(res.endClasses, endViolation{clsConnCredit, "connection receive window stayed exhausted for 15 s", len(res.log)})
